@@ -240,7 +240,7 @@ def run_history(game, ops, v_hook=None):
         if not facts.stopping:
             it.v.inconclusive = "not a stopping game"
             return it.v
-        if facts.T > T_MAX:
+        if facts.too_slow:
             it.v.inconclusive = "T>300"
             return it.v
     except OracleError as e:
@@ -282,7 +282,7 @@ def make_machine(sink):
             self.it = Interp(game)
             facts = self.it.facts
             try:
-                ok = facts.stopping and facts.T <= T_MAX
+                ok = facts.stopping and not facts.too_slow
             except OracleError:
                 ok = False
             if not ok:
